@@ -64,7 +64,9 @@ class FH(NumpyHooks):
                 cond.rat is not None and cond.rat.d.is_const():
             # decide by the leading coefficient in the size symbol m (large)
             p = cond.rat.n
-            lead = [c for mono, c in p.t.items() if dict(mono).get('m')]
+            lead = [c for mono, c in p.t.items()
+                    if any(str(v).startswith('m') and str(v)[1:].isdigit()
+                           or v == 'm' for v in dict(mono))]
             if lead:
                 pos = lead[0] / cond.rat.d.constant() > 0
                 if cond.key.startswith(('Lt:', 'LtE:')):
@@ -132,6 +134,105 @@ def check(ctx):
     return rep
 
 
+def recip_nd(model, parities, shift, axes, halfcomplex):
+    """reciprocal_grid on a 2-d grid with an axes subset; returns per-axis
+    (rmin, rmax, rshape) and the symbols used."""
+    fn = model.ctx.func(FT, 'reciprocal_grid')
+    nd = len(parities)
+    S = [Rat.var('s%d' % a) for a in range(nd)]
+    M = [Rat.var('m%d' % a) for a in range(nd)]
+    Ns = [M[a] * 2 if parities[a] == 'even' else M[a] * 2 + 1
+          for a in range(nd)]
+    h = FH()
+    grid = Rec('RectGrid', ndim=nd, stride=SArr(list(S)), shape=tuple(Ns),
+               min_pt=SArr([Rat.var('x0_%d' % a) for a in range(nd)]),
+               max_pt=SArr([Rat.var('x1_%d' % a) for a in range(nd)]))
+
+    def once(assume):
+        I = Interp(model, assume, h)
+        kw = {'shift': shift, 'halfcomplex': halfcomplex}
+        if axes is not None:
+            kw['axes'] = axes
+        I.call_func(Func(fn, I.env_of(FT), None), [grid], kw)
+        return h.grid
+    leaves = explore(once, limit=10)
+    if len(leaves) != 1:
+        raise Undecided('%d paths' % len(leaves))
+    rmin, rmax, rshape = leaves[0][1]
+    return ([to_rat(v) for v in rmin.items], [to_rat(v) for v in rmax.items],
+            [to_rat(v) for v in rshape], S, M)
+
+
+def _recip_nd(rep, model):
+    """The per-axis result of the n-d function on an axes subset equals the
+    (identity-checked) one-axis result of that axis; axes outside the subset
+    are untouched; the half-complex reduction acts on the last transform
+    axis only."""
+    fn = model.ctx.func(FT, 'reciprocal_grid')
+    n = 0
+    one = {}
+
+    def one_axis(shift, parity, hc):
+        k = (shift, parity, hc)
+        if k not in one:
+            one[k] = recip_case(model, shift, parity, hc)
+        return one[k]
+    for parities in itertools.product(('even', 'odd'), repeat=2):
+        for axes in (None, (0,), (1,), (0, 1), (1, 0), 1):
+            for hc in (False, True):
+                for shift in (True, False, 'mixed'):
+                    ax = [0, 1] if axes is None else (
+                        [axes] if isinstance(axes, int) else list(axes))
+                    if shift == 'mixed':
+                        if len(ax) < 2:
+                            continue
+                        sh = [True, False]
+                    else:
+                        sh = [shift] * len(ax)
+                    tag = 'reciprocal_grid[2-d %s,axes=%s,shift=%s,' \
+                        'halfcomplex=%s]' % ('/'.join(parities), axes, shift,
+                                             hc)
+                    n += 1
+                    try:
+                        rmin, rmax, rshape, S, M = recip_nd(
+                            model, parities, sh if shift == 'mixed'
+                            else shift, axes, hc)
+                        probs = []
+                        for a in range(2):
+                            if a not in ax:
+                                w = (Rat.var('x0_%d' % a),
+                                     Rat.var('x1_%d' % a),
+                                     M[a] * 2 if parities[a] == 'even'
+                                     else M[a] * 2 + 1)
+                            else:
+                                sa = sh[ax.index(a)]
+                                r1 = one_axis(sa, parities[a],
+                                              hc and a == ax[-1])
+                                sub = {'s': S[a], 'm': M[a]}
+                                w = tuple(v.subs(sub) for v in r1[:3])
+                            got = (rmin[a], rmax[a], rshape[a])
+                            for nm, g, ww in zip(('min', 'max', 'shape'),
+                                                 got, w):
+                                if g != ww:
+                                    probs.append('axis %d: %s = %r, the '
+                                                 'one-axis rule gives %r'
+                                                 % (a, nm, g, ww))
+                        if probs:
+                            rep.violation('R1', 'reciprocal_grid', '%s: %s'
+                                          % (tag, '; '.join(probs[:2])), FT,
+                                          fn.lineno)
+                        else:
+                            rep.holds('R1', tag, 'axes agree with the '
+                                      'one-axis rule')
+                    except Undecided as e:
+                        rep.undecided('R1', tag, str(e), FT, fn.lineno)
+                    except PyRaise as e:
+                        rep.violation('R1', 'reciprocal_grid',
+                                      '%s: raises %s' % (tag, e.name), FT,
+                                      fn.lineno)
+    rep.floor('R1', '2-d reciprocal grid configurations', n, 100)
+
+
 # --------------------------------------------------------------------------
 def _recip(rep, model):
     fn = model.ctx.func(FT, 'reciprocal_grid')
@@ -165,6 +266,7 @@ def _recip(rep, model):
         except PyRaise as e:
             rep.violation('R1', 'reciprocal_grid', '%s: raises %s'
                           % (tag, e.name), FT, fn.lineno)
+    _recip_nd(rep, model)
     # realspace_grid inverts stride and shape
     fn2 = model.ctx.func(FT, 'realspace_grid')
     for parity, hc in itertools.product(('even', 'odd'), (False, True)):
